@@ -356,6 +356,14 @@ def run_direct():
             if got != want:
                 res["viol"].append(violation("match_template", "false_positive" if got else "false_negative",
                                              "direct template %s vs %r: implementation %s" % (label, ssrc, got), desc))
+            if isinstance(tmpl, tuple) and want:
+                # OR templates: the first alternative that matches decides the bindings
+                first = next(core.match_template(node, alt) for alt in tmpl if core.match_template(node, alt))
+                full = core.match_template(node, tmpl)
+                if getattr(first, "_fields", ()) != getattr(full, "_fields", ()):
+                    res["viol"].append(violation("match_template", "or_template_not_first_alternative",
+                                                 "direct template %s vs %r: bindings %s, first matching alternative gives %s" % (
+                                                     label, ssrc, getattr(full, "_fields", ()), getattr(first, "_fields", ())), desc))
     return res
 
 
